@@ -138,7 +138,8 @@ def _run_hypothesis(chk, tier, seed, shard, nshards, stats):
         try:
             out = chk.execute(case)
         except Exception:
-            stats.errors.append(traceback.format_exc())
+            stats.errors.append(traceback.format_exc() + '\nCASE: '
+                                + canon(case)[:6000])
             if len(stats.errors) > 3:
                 raise
             return
